@@ -52,6 +52,21 @@ binary(struct expr *expr, enum tokenkind op, struct expr *l, struct expr *r)
 	else if (l->type->prop & PROPINT && l->type->u.basic.issigned)
 		op |= S;
 	switch (op) {
+	case TDIV:
+	case TDIV|S:
+	case TMOD:
+	case TMOD|S:
+		if (r->u.constant.u == 0)
+			error(&tok.loc, "division by zero in constant expression");
+		if (op & S && r->u.constant.i == -1) {
+			/* avoid trapping on LLONG_MIN / -1 */
+			expr->u.constant.u = op == (TDIV|S) ? -l->u.constant.u : 0;
+			cast(expr);
+			return;
+		}
+		break;
+	}
+	switch (op) {
 	case TMUL:
 	case TMUL|S:     expr->u.constant.u = l->u.constant.u * r->u.constant.u; break;
 	case TMUL|F:     expr->u.constant.f = l->u.constant.f * r->u.constant.f; break;
